@@ -798,6 +798,13 @@ class CallMixin:
             return VDict(t)
         if ty is Dict and isinstance(v, VAny):
             return self.dict_view(v)
+        from .ty import Assoc as _Assoc
+        if isinstance(ty, _Assoc) and isinstance(v, (VAny, VDict)):
+            # a dict handed to a callee that iterates over .items(): the insertion-ordered item list is an
+            # uninterpreted view of the dict (nothing is assumed about which pairs it contains)
+            nm = "uf.dict_items" if ty.valty is Any else f"uf.dict_items[{ty.valty.name}]"
+            self.ufs_used.add("dict_items (items view of a dict: uninterpreted)")
+            return ty.wrap(z3.Function(nm, Dict.sort(), ty.sort())(Dict.pack(v)))
         if ty is Any and not isinstance(v, VAny):
             return VAny(to_val(v))
         if isinstance(ty, SeqOf) and isinstance(v, VList) and v.elem is None and v.items is not None:
@@ -810,6 +817,11 @@ class CallMixin:
                 # same SMT sort, other VIEW of a field (an enum-valued field seen as its value string): the callee
                 # sees the elements through its own descriptor (a copy: only for lists the callee does not mutate)
                 return VList(ty.elem, seq=v.term())
+        if isinstance(ty, Rec) and isinstance(v, VRec) and isinstance(v.ty, Rec) and v.ty is not ty and not ty.as_dict \
+                and set(v.fields) == set(ty.fields) == set(v.ty.fields):
+            from .ty import _tykey
+            if _tykey(ty) == _tykey(v.ty) and any(type(ty.fields[k]) is not type(v.ty.fields[k]) for k in ty.fields):
+                return ty.wrap(v.ty.pack(v))  # same sort, other view of a field (enum member vs. its value string)
         if ty in (Int, Str, Bool) and isinstance(v, VAny):
             return coerce(v, ty)
         if isinstance(ty, SeqOf) and isinstance(v, VAny):
@@ -1124,6 +1136,19 @@ class CallMixin:
     def bi_sum(self, args, kwargs, lineno):
         items = self.concrete_items(args[0])
         if items is None:
+            v = args[0]
+            if isinstance(v, VList) and v.elem is Int and v.seq is not None:
+                # sum of a symbolic sequence of ints: one shared recursive function sum(s) = s[0] + sum(s[1:])
+                key = ("sumint",)
+                if key not in RECFUNS:
+                    isort = z3.SeqSort(z3.IntSort())
+                    f = z3.RecFunction("sumint", isort, z3.IntSort())
+                    sq = z3.Const("cs!sumint", isort)
+                    z3.RecAddDefinition(f, [sq], z3.If(z3.Length(sq) == 0, z3.IntVal(0),
+                                                       sq[0] + f(z3.SubSeq(sq, 1, z3.Length(sq) - 1))))
+                    RECFUNS[key] = f
+                start = coerce(args[1], Int).t if len(args) > 1 else z3.IntVal(0)
+                return VInt(start + RECFUNS[key](v.seq))
             raise Unsupported("sum over symbolic sequence")
         tot = coerce(args[1], Int).t if len(args) > 1 else z3.IntVal(0)
         for x in items:
@@ -1263,7 +1288,7 @@ class CallMixin:
             x = z3.Const(f"sx!{''.join(ch if ch.isalnum() else '_' for ch in lst.elem.name)}", lst.elem.sort())
             self.assume(z3.Length(r) == z3.Length(seq))
             self.assume(ordered(r))
-            if not __import__('os').environ.get('NOQ'): self.assume(z3.ForAll([x], z3.Contains(r, z3.Unit(x)) == z3.Contains(seq, z3.Unit(x)),
+            self.assume(z3.ForAll([x], z3.Contains(r, z3.Unit(x)) == z3.Contains(seq, z3.Unit(x)),
                                   patterns=[z3.Contains(r, z3.Unit(x)), z3.Contains(seq, z3.Unit(x))]))
             return VList(lst.elem, seq=r)
         raise Unsupported("sorted() of symbolic sequence (give the callee a contract)")
